@@ -30,6 +30,7 @@ import Drivers.GatherMeshb
 import Drivers.Repro
 import Drivers.Mixed
 import Drivers.ReconPar
+import Drivers.PartMeshb
 
 /-! `refdrv <driver> [args]` : dispatch to a line-protocol driver. One match arm per driver, on one line. -/
 
@@ -65,6 +66,7 @@ def main (args : List String) : IO UInt32 := do
   | "repro" :: rest => Drivers.Repro.run rest
   | "mixed" :: rest => Drivers.Mixed.run rest
   | "reconpar" :: rest => Drivers.ReconPar.run rest
+  | "partmeshb" :: rest => Drivers.PartMeshb.run rest
   | _ =>
     IO.eprintln s!"refdrv: unknown driver {args}"
     return 2
